@@ -10,12 +10,13 @@ Definition k_prot : str := nth 2%nat default_group_keys [].
 Definition k_iop : str := nth 3%nat default_group_keys [].
 Definition pix : list str := [nth 0%nat pix_attrs []].
 
-Definition mk (uid : str) (num : Z) (prot : str) (iop : list Q) : meta :=
+Definition mk (uid : str) (num : Z) (prot : str) (iop : list Qc) : meta :=
   mget [(k_uid, GStr uid); (k_num, GInt num); (k_prot, GStr prot); (k_iop, GTup iop)].
 
-Definition ax : list Q := [1; 0; 0; 0; 1; 0].
-Definition ax_near : list Q := [1; 3 # 100000; 0; 0; 1; 0].       (* within 5e-5 of ax *)
-Definition ax_far : list Q := [1; 2 # 10000; 0; 0; 1; 0].         (* beyond *)
+Definition qs (l : list Q) : list Qc := map Qcanon.Q2Qc l.
+Definition ax : list Qc := qs [1; 0; 0; 0; 1; 0].
+Definition ax_near : list Qc := qs [1; 3 # 100000; 0; 0; 1; 0].       (* within 5e-5 of ax *)
+Definition ax_far : list Qc := qs [1; 2 # 10000; 0; 0; 1; 0].         (* beyond *)
 
 (** series A: files 0 and 1 (orientation within tolerance), a fault, a pixel-less data set,
     series B (other protocol): file 3, series C (orientation beyond tolerance): file 4 *)
@@ -32,9 +33,9 @@ Definition ex_l2 : list (rd nat) := skipn 2%nat ex_l.
 
 (** a closeness chain: 0 ~ 4e-5 ~ 8e-5 but 0 !~ 8e-5 *)
 Definition ex_chain : list (rd nat) :=
-  [ Data pix 0%nat (mk [49%N] 1%Z [97%N] [1; 0; 0; 0; 1; 0]);
-    Data pix 1%nat (mk [49%N] 1%Z [97%N] [1; 4 # 100000; 0; 0; 1; 0]);
-    Data pix 2%nat (mk [49%N] 1%Z [97%N] [1; 8 # 100000; 0; 0; 1; 0]) ].
+  [ Data pix 0%nat (mk [49%N] 1%Z [97%N] (qs [1; 0; 0; 0; 1; 0]));
+    Data pix 1%nat (mk [49%N] 1%Z [97%N] (qs [1; 4 # 100000; 0; 0; 1; 0]));
+    Data pix 2%nat (mk [49%N] 1%Z [97%N] (qs [1; 8 # 100000; 0; 0; 1; 0])) ].
 
 (** a toy transactional add_dcm: the stack is the list of accepted ids; odd ids are refused *)
 Definition toy_add (st : list nat) (f : nat) : list nat * option err :=
